@@ -2083,11 +2083,25 @@ static int parse_table(struct scanner_s *scanner, cif_value_tp **tablep) {
         /* scan the value */
 
         /* obtain a value object into which to scan the value, to avoid copying the scanned value after the fact */
-        if ((key != NULL)
-                && (((result = cif_value_set_item_by_key(table, key, NULL)) != CIF_OK) 
-                        || ((result = cif_value_get_item_by_key(table, key, &value)) != CIF_OK))) {
-            free(key);
-            break;
+        if (key != NULL) {
+            result = cif_value_set_item_by_key(table, key, NULL);
+            if (result == CIF_INVALID_INDEX) {
+                /* error: a key that no table entry can bear (it contains a character the data model disallows) */
+                result = scanner->error_callback(CIF_INVALID_INDEX, scanner->line,
+                        scanner->column - TVALUE_LENGTH(scanner), TVALUE_START(scanner),
+                        TVALUE_LENGTH(scanner), scanner->user_data);
+                if (result == CIF_OK) {
+                    /* recover as for a null key: by parsing the entry's value and dropping it */
+                    free(key);
+                    key = NULL;
+                }
+            } else if (result == CIF_OK) {
+                result = cif_value_get_item_by_key(table, key, &value);
+            }
+            if (result != CIF_OK) {
+                free(key);
+                break;
+            }
         }
 
         if ((result = next_token(scanner)) == CIF_OK) {
